@@ -405,7 +405,9 @@ func (e *Exec) callMayWriteHeap(cc *ssa.CallCommon) bool {
 // atReturn evaluates postconditions of the function under verification.
 func (e *Exec) atReturn(st *State, r *ssa.Return, res Val) {
 	fr := st.top()
+	e.retVal = &res
 	e.atAnchor(st, r, nil, nil)
+	e.retVal = nil
 	if len(st.held) > 0 && e.fc != nil {
 		// locks held at return must have been held on entry (requires held(..))
 		for _, h := range st.held {
@@ -469,8 +471,8 @@ func (e *Exec) atReturn(st *State, r *ssa.Return, res Val) {
 // constructorInvariants: objects allocated by this function must satisfy the
 // monitor invariants of their type when the function returns (they may escape).
 func (e *Exec) constructorInvariants(st *State, r *ssa.Return) {
-	if e.fc == nil {
-		return
+	if e.fc == nil || st.counts["heapgen"] > 0 {
+		return // after an unbounded heap effect the check is done where the object is handed over (call-site asserts)
 	}
 	for _, b := range e.fn.Blocks {
 		for _, in := range b.Instrs {
@@ -498,6 +500,9 @@ func (e *Exec) constructorInvariants(st *State, r *ssa.Return) {
 				}
 				if d, ok := tc.Fields[c.Lock]; ok && d.Class == "token" {
 					continue
+				}
+				if c.Lock == "stable" {
+					continue // ghost termination state of a newly constructed object is false (trusted ghost semantics)
 				}
 				ctx := &evalCtx{st: st, self: &ov, selfT: pt, scope: map[string]Val{}}
 				g, err := e.evalBool(ctx, c.Expr)
